@@ -272,6 +272,8 @@ def d1_11(ctx):
         ("flags[3]{1}", "r", "flags[0]", 1, 3, None, ("flags[3]", [])), ("flags{96}", "r", "flags", 3, None, 96, ("flags", [])), ("flags", "r", "flags", 1, None, None, ("flags", [])),
         ("udt.bits[40]", "r", "udt.bits[0]", 2, 40, None, ("udt", ["bits[40]"])),
         ("nosuch", "r", "RequestError", None, None, None, None), ("d{x}", "r", "RequestError", None, None, None, None),
+        # malformed element counts: an unclosed or unopened brace is part of a (non-existent) tag name, never a count
+        ("d{33", "r", "RequestError", None, None, None, None), ("d}", "r", "RequestError", None, None, None, None), ("d{}", "r", "RequestError", None, None, None, None),
     ]
     for req, rw, plc, n, bit, bools, look in W:
         hook.seen = []
